@@ -295,8 +295,14 @@ Record pkinfo := mkpk {
   pk_second : option addr        (* SecondAddress(): staking address or binding target; nil for standard *)
 }.
 
-Definition parse_pk_script (s : bytes) : Outcome pkinfo :=
+Definition witness_class (c : sclass) : bool :=
+  match c with WitnessV0ScriptHashTy | StakingScriptHashTy | BindingScriptHashTy => true | _ => false end.
+
+(* [a2fix] = false is the code as found.  true models the proposed repair of DESIGN.md A2: the class is
+   looked at before GetParsedOpcode and every class the wallet does not read returns ErrUnsupportedScript. *)
+Definition parse_pk_script_gen (a2fix : bool) (s : bytes) : Outcome pkinfo :=
   let '(c, pops) := get_script_info s in
+  if a2fix && negb (witness_class c) then Err EUnsupported else
   bind (get_parsed_opcode pops c) (fun hs =>
   let '(height, sh) := hs in
   match c with
@@ -479,6 +485,9 @@ Definition extract_address_infos_gen (e2fix e3guard : bool) (pk_ok : bytes -> bo
   end).
 
 (* switches: flip to true when the corresponding repair is committed in /repo *)
+Definition a2_fixed : bool := false.
+Definition parse_pk_script := parse_pk_script_gen a2_fixed.
+Definition a2_err (a2fix : bool) : errk := if a2fix then EUnsupported else EInvalidHashType.
 Definition e2_fixed : bool := false.
 Definition e3_guarded : bool := false.
 Definition extract_address_infos := extract_address_infos_gen e2_fixed e3_guarded.
